@@ -9,8 +9,8 @@ import numpy as np
 from .. import common, gen, oracle, sexp, translate
 from ..common import Ctx
 
-MODULE = "GotranxProofs.Properties.C01 GotranxProofs.GenValid GotranxProofs.ParseRender GotranxProofs.EndToEnd GotranxProofs.LoaderWF GotranxProofs.GenValidMon GotranxProofs.EndToEndAll"
-THEOREMS = ["Gx.load_end_to_end", "Gx.loadStringP_wf", "Gx.EndToEnd.rhs_end_to_end", "Gx.EndToEnd.monitor_end_to_end", "Gx.EndToEnd.gen_total", "Gx.EndToEnd.rhs_runs", "Gx.Kahn.staticOrder_complete", "Gx.ParseRender.text_denotes", "Gx.ParseRender.parse_render", "Gx.ParseRender.all_levels", "Gx.GenValid.genRhs_valid", "Gx.GenValidMon.genMonitor_correct", "Gx.GenValid.checkModelWF_sound", "Gx.GenValid.genRhs_correct", "Gx.Kahn.staticOrder_correct", "Gx.GenValid.sorted_facts", "Gx.C01.rhs_sound", "Gx.C01.rhs_progress", "Gx.C01.eval_cond_true", "Gx.C01.eval_cond_false",
+MODULE = "GotranxProofs.Properties.C01 GotranxProofs.GenValid GotranxProofs.ParseRender GotranxProofs.EndToEnd GotranxProofs.LoaderWF GotranxProofs.GenValidMon GotranxProofs.EndToEndAll GotranxProofs.LoadEndToEndAll"
+THEOREMS = ["Gx.load_end_to_end", "Gx.load_monitor_end_to_end", "Gx.loadStringP_wf", "Gx.EndToEnd.rhs_end_to_end", "Gx.EndToEnd.monitor_end_to_end", "Gx.EndToEnd.gen_total", "Gx.EndToEnd.rhs_runs", "Gx.Kahn.staticOrder_complete", "Gx.ParseRender.text_denotes", "Gx.ParseRender.parse_render", "Gx.ParseRender.all_levels", "Gx.GenValid.genRhs_valid", "Gx.GenValidMon.genMonitor_correct", "Gx.GenValid.checkModelWF_sound", "Gx.GenValid.genRhs_correct", "Gx.Kahn.staticOrder_correct", "Gx.GenValid.sorted_facts", "Gx.C01.rhs_sound", "Gx.C01.rhs_progress", "Gx.C01.eval_cond_true", "Gx.C01.eval_cond_false",
             "Gx.C01.eval_rel", "Gx.C01.blend_gt", "Gx.C01.blend_lt", "Gx.checkRhs_sound", "Gx.exec_agree",
             "Gx.exec_progress", "Gx.eval_congr", "Gx.C01.meaning_unique", "Gx.C01.meaning_exists", "Gx.solution_unique", "Gx.denote_stable",
             "Gx.denote_equations"]
